@@ -58,7 +58,8 @@ func agentTraceCase(t *rapid.T, mode string) {
 		for i, n := 0, rapid.IntRange(3, 14).Draw(t, "n"); i < n; i++ {
 			reqs = append(reqs, req{kind: rapid.SampledFrom([]string{"sasl", "sasl", "basic-auth", "api-authenticate", "ldap-bind", "ldap-search", "ldap-add", "ldap-modify", "ldap-delete", "ldap-compare",
 				"api-add-nosession", "api-remove-garbage-session", "api-update-wrong-oldpw", "api-list-user-token", "api-setadmin-nosession", "api-bad-json",
-				"api-setadmin-noop-adminsession", "api-setadmin-noop-adminsession", "api-setadmin-ghost-adminsession", "api-update-empty-newpw-adminsession"}).Draw(t, "kind"),
+				"api-setadmin-noop-adminsession", "api-setadmin-noop-adminsession", "api-setadmin-ghost-adminsession", "api-update-empty-newpw-adminsession",
+				"api-update-both-credentials", "api-update-both-credentials", "api-update-neither-credential", "api-add-existing-adminsession"}).Draw(t, "kind"),
 				user: rapid.SampledFrom([]string{"alice", "root", "ghost", "../store/alice"}).Draw(t, "user"), pw: rapid.SampledFrom([]string{"alicepw", "rootpw", "wrong"}).Draw(t, "pw")})
 			if mode == "C03" {
 				reqs[len(reqs)-1].user = rapid.SampledFrom([]string{"../sibling/bob", "./alice", "alice/", "x/../alice", "../store/alice", s.root + "/sibling/bob", "", "..", ".tmp/x", "alice\x00", "-alice", "../decoy"}).Draw(t, "badname")
@@ -270,6 +271,13 @@ func agentTraceCase(t *rapid.T, mode string) {
 				vlib.Class("traced-noop-request-with-admin-session")
 			case "api-setadmin-ghost-adminsession":
 				post("/api/set-admin", `{"session":"`+adminSession()+`","username":"ghost","admin":true}`)
+			case "api-update-both-credentials":
+				// ambiguous: a (valid admin) session AND an old password -- refused, whatever the old password is
+				post("/api/update", `{"session":"`+adminSession()+`","username":"alice","oldpassword":"`+r.pw+`","newpassword":"changed-by-an-ambiguous-request-9x!"}`)
+			case "api-update-neither-credential":
+				post("/api/update", `{"username":"alice","newpassword":"changed-without-any-credential-9x!"}`)
+			case "api-add-existing-adminsession":
+				post("/api/add", `{"session":"`+adminSession()+`","username":"alice","password":"another-password-9x!","admin":true}`)
 			case "api-update-empty-newpw-adminsession":
 				post("/api/update", `{"session":"`+adminSession()+`","username":"alice","newpassword":""}`)
 			}
